@@ -120,6 +120,24 @@ SimplifyOpenRec(ps, i, acc) ==
     ELSE SimplifyOpenRec(ps, i + 1, Append(acc, ps[i]))
 SimplifyOpen(ps) == SimplifyOpenRec(Dedup0(ps), 1, <<>>)
 
+\* F refines E: F starts and ends where E does, passes through every vertex of E in order, and its
+\* other points lie on E's segments to within one grid unit (a robust path's centre line is written
+\* with intermediate sample points, each rounded to the grid on its own)
+NearSeg(a, b, q) ==
+    LET d == <<b[1] - a[1], b[2] - a[2]>>
+        cr == d[1] * (q[2] - a[2]) - d[2] * (q[1] - a[1]) IN
+    /\ Abs(cr) <= Max(Abs(d[1]), Abs(d[2]))
+    /\ d[1] * (q[1] - a[1]) + d[2] * (q[2] - a[2]) >= 0
+    /\ d[1] * (b[1] - q[1]) + d[2] * (b[2] - q[2]) >= 0
+RECURSIVE RefinesFrom(_, _, _, _)
+RefinesFrom(F, E, i, k) ==       \* F[1..i-1] consumed, currently on segment E[k] -> E[k+1]
+    IF i > Len(F) THEN k = Len(E)
+    ELSE IF k < Len(E) /\ F[i] = E[k + 1] THEN RefinesFrom(F, E, i + 1, k + 1)
+    ELSE k < Len(E) /\ NearSeg(E[k], E[k + 1], F[i]) /\ RefinesFrom(F, E, i + 1, k)
+PathRefines(F0, E0) == LET F == Dedup0(F0)
+                           E == Dedup0(E0) IN
+                       Len(F) >= 1 /\ Len(E) >= 1 /\ F[1] = E[1] /\ RefinesFrom(F, E, 2, 1)
+
 \* end extensions of a logged path element, canonical (start, end) in 1/1000 unit
 JExt(el) == CASE el.pt = 0 -> <<0, 0>> [] el.pt = 2 -> <<el.w \div 2, el.w \div 2>> [] el.pt = 4 -> <<el.ext[1], el.ext[2]>>
               [] OTHER -> <<-1, -1>>
@@ -129,7 +147,7 @@ PathFails(s, j) ==
     \cup Tag("layer", WrapInt(s.l) = el.l) \cup Tag("datatype", WrapInt(s.t) = el.t)
     \cup Tag("half_width", el.w = 2 * Fine * s.hw)
     \cup Tag("end_extensions", JExt(el) = <<Fine * s.es, Fine * s.ee>>)
-    \cup Tag("spine", PtsOnGrid(j.spine) /\ SimplifyOpen(GridPts(j.spine)) = SimplifyOpen(s.pts))
+    \cup Tag("spine", PtsOnGrid(j.spine) /\ PathRefines(GridPts(j.spine), SimplifyOpen(s.pts)))
     \cup Tag("repetition", RepAgree(s.rep, j.rep)) \cup Tag("properties", PropsAgree(s.props, j.aprops))
 
 SpecMag1024(mag) == CASE mag[1] = "one" -> 1024 [] mag[1] = "lat" -> mag[2] [] OTHER -> RealNear(mag[2], 1024)
